@@ -45,7 +45,8 @@ def gather_types(x):
 
 REG_RULE = ("case = one registry (prefix / common labels incl. invalid ones) + 2-6 collector definitions (counter, int counter, gauge, int gauge, histogram, "
             "pulling gauge, counter/gauge vectors with 0-4 children, custom multi-descriptor collectors; names, help texts, const labels drawn from small "
-            "overlapping pools) + 4-16 register/unregister/redefine/gather calls; non-trivial = at least two successful and one refused registration; distinct by request text")
+            "overlapping pools; descriptor twins that differ only in where a U+00FF character sits relative to a field boundary; EQUAL descriptors built separately for collectors of different kinds; vector children addressed by position and by name, label values containing NUL) "
+            "+ 4-16 register/unregister/redefine/gather calls; non-trivial = at least two successful and one refused registration; distinct by request text")
 
 CONC_TB = ["sequentially consistent interleaving of the atomic / lock operations (one library thread runs at a time under the scheduler); the Rust memory model beyond that is outside: "
            "the orderings are compared literally with the model's, a weaker ordering breaks the correspondence but no SC schedule can exhibit a stale read",
@@ -106,7 +107,7 @@ PROPS = {
                dict(area="cvec", quick=800, thorough=40000, classes=["update-lost", "not-linearizable", "stuck", "harness-panic"]),
                dict(area="local", quick=600, thorough=20000, classes=["counter-handover", "counter-pending", "harness-panic"], mask=[(only_prefix("shared="), None)])],
         rule="case = 2-3 real threads x 1-3 calls (inc, inc_by, get, reset, local flush) on one shared Counter / IntCounter, or get-or-create + inc on IntCounterVec children, run under the deterministic scheduler "
-             "(random schedules with stickiness 0/50/85 %, up to 12 spurious compare-exchange failures); the observed trace of atomic operations is replayed by the Lean machine; "
+             "(random schedules with stickiness 0/50/85 %, up to 12 spurious compare-exchange failures; float programs also with amounts of k*2^-70, far below f64::EPSILON); the observed trace of atomic operations is replayed by the Lean machine; "
              "plus sequential histories of local counters (inc, flush, reset, clone, shared reset) from the `local` area: the shared counter must equal its direct updates plus the flushed amounts, each exactly once; "
              "non-trivial = two calls of different threads overlap in real time; distinct by (program, schedule seed)",
         trusted=CONC_TB + ["float amounts are small integers (exact sums)"],
@@ -115,7 +116,7 @@ PROPS = {
         module="Prom.Props.C11",
         areas=[dict(area="catomg", quick=1500, thorough=80000, classes=["not-linearizable", "stuck", "harness-panic"]),
                dict(area="cvec", quick=500, thorough=20000, classes=["update-lost", "not-linearizable", "stuck", "harness-panic"])],
-        rule="case = 2-3 real threads x 1-3 calls (set, inc, dec, add, sub, get; integer gauges also near i64::MAX/MIN) on one shared Gauge / IntGauge under the deterministic scheduler; trace replayed by the Lean machine; "
+        rule="case = 2-3 real threads x 1-3 calls (set, inc, dec, add, sub, get; integer gauges also near i64::MAX/MIN; float gauges also with amounts of k*2^-70) on one shared Gauge / IntGauge under the deterministic scheduler; trace replayed by the Lean machine; "
              "non-trivial = two calls of different threads overlap; distinct by (program, schedule seed)",
         trusted=CONC_TB + ["float amounts are small integers (exact sums); sub(x) undoes add(x) for f64 only up to rounding in general"],
     ),
@@ -123,7 +124,7 @@ PROPS = {
         module="Prom.Props.C10",
         areas=[dict(area="cvec", quick=1500, thorough=80000),
                dict(area="vec", quick=600, thorough=20000, classes=["child-identity", "remove-result", "collect-mismatch", "error-kind", "wrong-shape-accepted", "wellformed-request-refused", "harness-panic"])],
-        rule="case = 2-3 real threads x 1-3 calls (with_label_values + inc, remove, reset, collect) on two overlapping keys of one IntCounterVec under the deterministic scheduler; trace (lock sections, child updates) replayed by the Lean machine; "
+        rule="case = 2-3 real threads x 1-3 calls (with_label_values + inc, remove, reset, collect, updates through retained handles) on two overlapping keys of one IntCounterVec under the deterministic scheduler, 15 % of the programs of the shape two-creators-of-one-key + one remover of the other key; trace (lock sections, child updates) replayed by the Lean machine; "
              "plus sequential histories of the `vec` area; non-trivial = two calls of different threads overlap; distinct by (program, schedule seed)",
         trusted=CONC_TB + ["handle identity is established after the run by bumping every returned handle by a distinct power of two"],
     ),
@@ -166,7 +167,7 @@ PROPS = {
         module="Prom.Props.C18",
         areas=[dict(area="timer", quick=2000, thorough=80000)],
         rule="case = one shared histogram with a parent local histogram + 4-18 operations over several shared and local timers "
-             "(start, stop_and_record, observe_duration, stop_and_discard, drop, stop on another thread, observe_closure_duration, plain observe on / flush of the parent local); "
+             "(start, stop_and_record, observe_duration, stop_and_discard, drop, drop during unwinding, stop on another thread, observe_closure_duration, plain observe on / flush of the parent local); 30 % of the worlds use a histogram whose only finite bound lies below every duration; "
              "non-trivial = at least two timers ended; distinct by request text",
         trusted=["the clock is an input (elapsed() saturates at zero); only the number and sign of recorded values is checked"],
     ),
@@ -233,7 +234,7 @@ PROPS = {
                     classes=["gathered-name-invalid", "gathered-duplicate-label", "registry-accepts-invalid-names", "registry-refuses-valid-names", "harness-panic"],
                     mask=[(gather_names_labels, None)])],
         rule="case = 2-4 related constructor requests (Desc::new and all 10 metric constructors; names from an adversarial pool "
-             "of ASCII/non-ASCII letters, digits, punctuation, empty; mutations: const->var, shuffles, boundary shifts); "
+             "of ASCII/non-ASCII letters, digits, punctuation, empty; mutations: const->var, shuffles, boundary shifts, added / dropped constant labels); "
              "non-trivial = at least two accepted descriptors in the case; distinct by request text",
         trusted=["strings are UTF-8 byte lists; utf8_char_ascii / utf8_noFF (proved about Lean core's String.utf8EncodeChar) tie bytes to characters",
                  "HashMap iteration order is modelled as an arbitrary list order; each request is executed under two insertion orders"],
@@ -242,7 +243,7 @@ PROPS = {
         module="Prom.Props.C15",
         areas=[dict(area="desc", quick=3000, thorough=100000,
                     classes=["id-not-structural", "dim-not-structural", "order-dependent", "harness-panic"])],
-        rule="case = 2-4 related descriptors (boundary-shifted splits, shuffled const/var labels, empty strings, shared prefixes); every pair of accepted "
+        rule="case = 2-4 related descriptors (boundary-shifted splits, shuffled const/var labels, empty strings, shared prefixes, strict supersets of the constant labels), built one after another on one thread through Desc::new and every constructor; every pair of accepted "
              "descriptors is compared (id equal <=> same fq name + const values in name order; dim equal <=> same help + name sets); "
              "non-trivial = at least two accepted descriptors in the case",
         trusted=["equality of the 64-bit hashes is up to FNV collisions (the theorems are about the bytes fed to the hasher)",
